@@ -43,6 +43,12 @@ CHECKS = {
             "is empty or gone there, no non-current file is still low-use by the threshold, StorageSize never grows inside a cycle and grows at the following flush by at most the outstanding (relocated) work. "
             "Liveness is checked in this bounded form, which is what generated-input search can give.",
             BASE + " Thresholds are fixed per case; threshold 0 (every file permanently low-use) is excluded from the fixed-point clause.", "4 C11"),
+    "C03": (True, "fault_enumeration", "crash-point enumeration over generated workloads (named points capture every intermediate directory image; torn-write synthesis; durability-model oracle; post-recovery model-based history)",
+            "Generated workloads (puts, overwrites, removals, flushes, iteration, GC cycles with and without unflushed data and budgets, close/reopen) run with a handler on ~140 named points that snapshots the directory before every file-system step; "
+            "consecutive images are diffed into single steps, and every byte prefix of every written region is synthesised as a torn state (a self-check counts steps that have no point in between as hook_gaps, so the enumeration is complete with respect to the code that ran). "
+            "Each crash image is restored and opened; the open must succeed, every key must read a value it legitimately had between the last completed Flush/Close and the crash instant (for every instant the same bytes were on disk), never foreign bytes, and a generated suffix "
+            "with GC and reopen must then behave like the map model. Quick draws a few states per workload; thorough enumerates all states of every workload, and a sample of second-level crashes inside the recovery open.",
+            BASE + " Process-crash model (completed system calls are durable); positional writes of <=4 bytes are atomic. Enumeration is exhaustive per generated workload, not over all workloads.", "4 C03"),
     "C08": (True, "exploration", "small-scope exhaustive enumeration + rapid random sequences against a per-operation invariant oracle",
             "index.Index over the in-memory primary, driven under the caller contract the store keeps. Every ordered insertion of up to 5/6 keys of the universe {bucket}x{0,1}^3 followed by every single re-point, removal or re-insertion "
             "under three flush placements, all insertions of up to 3/4 keys over a 3-symbol alphabet, plus random longer sequences over larger alphabets, key lengths and bit sizes; after EVERY operation each present key must resolve "
